@@ -28,11 +28,12 @@ RTOL = 1e-9
 def rtol_of(q):
     """1e-9 up to q = 3; the conditioning of the (preconditioned) q-times integrated Wiener process, and with it the
     cancellation in smoothed high derivatives at t0, grows by more than an order of magnitude per derivative"""
-    return {4: 1e-8, 5: 1e-7, 6: 1e-5}.get(q, RTOL if q <= 3 else 1e-5)
+    return {4: 1e-8, 5: 1e-6, 6: 1e-4}.get(q, RTOL if q <= 3 else 1e-4)
 
 
 def deriv_floor(c, coeff_mag):
-    """Intrinsic rounding noise of the i-th Taylor coefficient estimated from data at spacing h: eps * |u^(j)| / h^(i-j).
+    """Intrinsic rounding noise of the i-th Taylor coefficient estimated from data at spacing h: eps * |u^(j)| (2/h)^(i-j)
+    (a k-th difference quotient has weights summing to 2^k / h^k).
     coeff_mag: max |u^(j)| per coefficient j (length q+1). Returns one floor per coefficient (fixed grids only)."""
     if c.get("routine", "fixed_grid") != "fixed_grid":
         return np.zeros(len(coeff_mag))
@@ -40,7 +41,7 @@ def deriv_floor(c, coeff_mag):
     h = min(b - a for a, b in zip(g[:-1], g[1:]))
     out = []
     for i in range(len(coeff_mag)):
-        out.append(200 * 2.3e-16 * max(max(coeff_mag[j], 1.0) / h ** (i - j) for j in range(i + 1)))
+        out.append(200 * 2.3e-16 * max(max(coeff_mag[j], 1.0) * (2.0 / h) ** (i - j) for j in range(i + 1)))
     return np.array(out)
 
 
@@ -552,7 +553,7 @@ def main():
     if not pr["ok"] and not ck.violations:
         ck.report("C14.proof", f"proof obligations no longer check: {pr['errors']}",
                   {"broken": pr.get("failed_at", "Props/C14.v"), "errors": pr["errors"]}, nofail=True)
-    ck.finish(rule="implementation vs implementation in the dense layout (index i*d+a), float64, tolerance 1e-9 (q <= 3; 1e-8, 1e-7, 1e-5 for q = 4, 5, 6) relative to |mean|+sd resp. sd_i*sd_j, plus the rounding floor eps |u^(j)| / h^(i-j) of the i-th Taylor coefficient on a grid of spacing h: "
+    ck.finish(rule="implementation vs implementation in the dense layout (index i*d+a), float64, tolerance 1e-9 (q <= 3; 1e-8, 1e-6, 1e-4 for q = 4, 5, 6: eps x 100 x the condition number of the (q+1) Hilbert matrix) relative to |mean|+sd resp. sd_i*sd_j, plus the rounding floor eps |u^(j)| (2/h)^(i-j) of the i-th Taylor coefficient on a grid of spacing h: "
               "(1) TS0, default scales, shared initial std: dense/isotropic/block-diagonal on the same random polynomial ODE and fixed grid, "
               "strategies filter/fixed-interval/fixed-point, calibration none/mle/dynamic: dense=isotropic in everything (means, covariances, "
               "output scales) in every mode; dense=block-diagonal means (none, mle), covariances (none), dense_scale^2 = mean_a blockdiag_scale_a^2 (mle); "
